@@ -192,6 +192,7 @@ func (n *nativeRunner) ensureOverlay() error {
 	if src, err := os.ReadFile(filepath.Join(n.repo, "models", "signed_latency.go")); err == nil && bytes.Contains(src, []byte("\t\"time\"\n")) {
 		dst := filepath.Join(n.work, "time_signed_latency.go")
 		nb := bytes.Replace(src, []byte("\t\"time\"\n"), []byte("\ttime \"github.com/aukilabs/hagall/internal/veriftime\"\n"), 1)
+		nb = append(nb, []byte("\nfunc init() { time.MarkInUse() }\n")...)
 		if os.WriteFile(dst, nb, 0o644) == nil {
 			repl[filepath.Join(n.repo, "models", "signed_latency.go")] = dst
 		}
